@@ -92,8 +92,11 @@ func (h *h2Hist) mkCred(prefUser string) h2Cred {
 		case 1:
 			c.nonce = false
 			c.nonceOK = false
-		case 2:
-			c.nonceVal = "0123456789abcdef"
+		case 2: // a nonce this server never minted: every length class of both nonce formats, hostile alphabets
+			junk := []string{"0123456789abcdef", "", "0", strings.Repeat("Z", 25), strings.Repeat("z", 24), strings.Repeat("z", 26),
+				strings.Repeat("ab", 40), strings.Repeat("f", 39), strings.Repeat("f", 40), strings.Repeat("f", 41), strings.Repeat("9", 200),
+				"!!!!", "zz zz", "\u00e9\u00e9\u00e9", strings.Repeat("0", 64), "-1", "+" + strings.Repeat("Z", 30)}
+			c.nonceVal = junk[h.rng.Intn(len(junk))]
 			c.nonceOK = false
 		case 3: // aged nonce: valid iff stamped at most 60 whole minutes ago
 			c.nonceVal = h.oldNonce
